@@ -242,6 +242,18 @@ namespace cs
             stats().hit("reach.deallocator_used_directly");
         }
 
+        template <class T, class Alloc>
+        void op_array_any(Ctx& c, Alloc& a, int alloc, long n, long k)
+        {
+            guarded<T>(c, "allocate_unique<T[]>(any_allocator)", alloc, n, k,
+                       [&]
+                       {
+                           auto p  = fm::allocate_unique<T[]>(fm::any_allocator{}, a, std::size_t(n));
+                           auto sp = std::make_shared<decltype(p)>(std::move(p));
+                           c.owners.push_back({[sp]() mutable { sp->reset(); }, n, alloc});
+                       });
+        }
+
         template <class T>
         void dispatch(Ctx& c, int helper, int alloc, long n, long k)
         {
@@ -351,6 +363,34 @@ namespace cs
                     long n = o.arg(1) == 1 ? 1 + o.arg(3) % 16 : 1;
                     long k = o.arg(4) % (n + 2); // 0 none, 1..n, n+1 beyond
                     one(c, int(o.arg(0)), int(o.arg(1)) % 3, int(o.arg(2)), n, k);
+                }
+                else if (o.kind == "mkx")
+                {
+                    // less travelled forms: a type whose default constructor is noexcept but whose value constructor
+                    // can fail; the type-erased array overload; arrays of length 0
+                    using TN  = InstN<4, 4>;
+                    long form = o.arg(0) % 6, n = o.arg(1) % 17, k = o.arg(2);
+                    switch (form)
+                    {
+                    case 0:
+                        op_unique<TN>(c, env.la[0], 0, k % 3);
+                        break;
+                    case 1:
+                        op_shared<TN>(c, env.la[0], 0, k % 3);
+                        break;
+                    case 2:
+                        op_unique_any<TN>(c, env.la[0], 4, k % 3);
+                        break;
+                    case 3:
+                        op_array_any<Inst<4, 4>>(c, env.la[0], 4, n, k % (n + 2));
+                        break;
+                    case 4:
+                        op_array<Inst<40, 16>>(c, env.la[0], 0, n, k % (n + 2)); // (n may be 0)
+                        break;
+                    default:
+                        op_array_any<Inst<100, 8>>(c, env.la[0], 4, 0, 0); // an array of no elements, type-erased
+                    }
+                    stats().hit("reach.smart_less_travelled_forms");
                 }
                 else if (o.kind == "base")
                 {
